@@ -899,6 +899,10 @@ func (c *VCtx) selectInstr(fr *Frame, st *State, x *ssa.Select) Val {
 	}
 	c.curSelectBlocking = x.Blocking
 	c.pointAsserts(fr, st, fmt.Sprintf("select %d", selectOrdinal(fr.fn, x)), x.Pos())
+	if x.Blocking {
+		// "select *": what must hold at every blocking select of the function, including ones added later
+		c.pointAsserts(fr, st, "select *", x.Pos())
+	}
 	c.observe(st)
 	idx := c.fresh("sel", SInt)
 	lo := int64(0)
